@@ -415,3 +415,343 @@ func genC08(r *rng, tier string, add func(g *G)) {
 		add(g)
 	}
 }
+
+// ---------------------------------------------------------------- C11: iteration
+func genC11(r *rng, tier string, add func(g *G)) {
+	n := scale(tier, 60, 1200)
+	for i := 0; i < n; i++ {
+		g := newG(r.fork(), fmt.Sprintf("C11/%d", i))
+		g.dumpEvery = 0
+		g.params([]int{700, 2048, 1 << 16}[g.r.intn(3)], 512, 0.0001, false)
+		g.open()
+		switch i % 3 {
+		case 0:
+			g.keys = append(g.collidingKeys(45, 10, "c"), g.randomKeys(40)...)
+		case 1:
+			g.keys = g.randomKeys(160)
+		default:
+			g.keys = append(g.collidingKeys(70, 6, "e"), g.randomKeys(10)...)
+		}
+		fill := 30 + g.r.intn(len(g.keys))
+		for j := 0; j < fill; j++ {
+			g.put(g.pick(), g.r.bytes(g.r.intn(12)))
+		}
+		// quiescent scan: every live key exactly once, then done for ever
+		g.do("iternew q")
+		seen := map[string]bool{}
+		for j := 0; j < len(g.ref); j++ {
+			out := resultLine(g.do("iternext q"))
+			f := strings.Fields(out)
+			ok := len(f) == 3 && f[0] == "iternext"
+			if ok {
+				k := string(interp.Unhex(f[1]))
+				v, live := g.ref[k]
+				ok = live && !seen[k] && interp.Hex(v) == f[2]
+				seen[k] = true
+			}
+			if !ok {
+				g.c.Steps[len(g.c.Steps)-1].Expect = []string{"iternext <a live key not returned before> <its value>"}
+			}
+		}
+		g.do("iternext q", "iternext done")
+		g.do("iternext q", "iternext done")
+		// concurrent scan: writers between the calls
+		written := map[string]map[string]bool{} // every value ever put per key
+		for k, v := range g.ref {
+			written[k] = map[string]bool{string(v): true}
+		}
+		touched := map[string]bool{}
+		startRef := copyMap(g.ref)
+		g.do("iternew c")
+		returned := map[string]bool{}
+		for steps := 0; steps < 4000; steps++ {
+			for g.r.chance(55) {
+				switch x := g.r.intn(10); {
+				case x < 6:
+					k, v := g.pick(), g.r.bytes(g.r.intn(12))
+					if written[string(k)] == nil {
+						written[string(k)] = map[string]bool{}
+					}
+					written[string(k)][string(v)] = true
+					touched[string(k)] = true
+					g.put(k, v)
+				case x < 9:
+					k := g.pickLive()
+					touched[string(k)] = true
+					g.del(k)
+				default:
+					g.compact()
+				}
+				g.c.tag("writer_ops_during_scan")
+			}
+			out := resultLine(g.do("iternext c"))
+			if out == "iternext done" {
+				break
+			}
+			f := strings.Fields(out)
+			ok := len(f) == 3
+			if ok {
+				k := string(interp.Unhex(f[1]))
+				ok = written[k][string(interp.Unhex(f[2]))]
+				returned[k] = true
+			}
+			if !ok {
+				g.c.Steps[len(g.c.Steps)-1].Expect = []string{"iternext <key> <a value that was put for that key>"}
+			}
+		}
+		// every key that existed untouched for the whole scan was returned
+		for k := range startRef {
+			if !touched[k] && !returned[k] {
+				g.do("echo untouched-key-missed-"+interp.Hex([]byte(k)), "echo ok")
+			}
+		}
+		g.indexShape()
+		g.checkAll()
+		add(g)
+	}
+}
+
+// ---------------------------------------------------------------- C12: backup
+func genC12(r *rng, tier string, add func(g *G)) {
+	n := scale(tier, 60, 1200)
+	for i := 0; i < n; i++ {
+		g := newG(r.fork(), fmt.Sprintf("C12/%d", i))
+		g.dumpEvery = 0
+		g.params([]int{600, 700, 1200, 1 << 16}[g.r.intn(4)], 512, 0.0001, g.r.chance(20))
+		g.open()
+		g.keys = g.randomKeys(10)
+		if i%4 == 3 {
+			// backup after a recovery that discarded a torn tail
+			g.bigValues = true
+			g.put(g.pick(), g.value())
+			before := copyMap(g.ref)
+			g.put(g.pick(), g.value())
+			pts := g.crashPoints()
+			p := pts[g.r.intn(len(pts))]
+			g.crashLast(before, g.ref, p[0], p[1])
+			g.c.tag("backup_after_recovery")
+		}
+		fill := g.r.intn(50)
+		for j := 0; j < fill; j++ {
+			g.randomOp()
+		}
+		writer := func() {
+			for g.r.chance(50) {
+				if g.r.chance(65) {
+					g.put(g.pick(), g.r.bytes(20+g.r.intn(200)))
+				} else {
+					g.del(g.pickLive())
+				}
+				g.c.tag("writer_ops_during_backup")
+			}
+		}
+		name := "b"
+		if i%5 == 0 {
+			g.do("backup "+name, "backup ok")
+			g.c.tag("quiescent_backups")
+		} else {
+			nseg := 0
+			for _, nm := range g.im.FS.List(g.im.Dir) {
+				if strings.HasSuffix(nm, ".psg") {
+					nseg++
+				}
+			}
+			g.do("bplan "+name, "bplan ok")
+			snap := copyMap(g.ref)
+			for s := 0; s < nseg; s++ {
+				writer()
+				g.do("bcopy "+name, "bcopy ok")
+			}
+			writer()
+			g.do("bfinish "+name, "bfinish ok")
+			// the source is not affected
+			g.checkAll()
+			g.dump()
+			g.ref = snap
+		}
+		g.do("usebackup " + name)
+		g.isOpen = false
+		g.open()
+		g.c.Steps[len(g.c.Steps)-1].Expect = []string{"open ok recovered=1"}
+		g.checkAll()
+		g.dump()
+		add(g)
+	}
+}
+
+// ---------------------------------------------------------------- C15: compaction reclaims, nothing leaks, stays usable
+func genC15(r *rng, tier string, add func(g *G)) {
+	n := scale(tier, 50, 800)
+	for i := 0; i < n; i++ {
+		g := newG(r.fork(), fmt.Sprintf("C15/%d", i))
+		g.dumpEvery = 0
+		g.params([]int{600, 800, 2048}[g.r.intn(3)], 512, []float32{0.0001, 0.3}[g.r.intn(2)], g.r.chance(25))
+		g.open()
+		g.keys = g.randomKeys(6 + g.r.intn(10))
+		cycles := 3 + g.r.intn(scale(tier, 6, 25))
+		sizes := []int{}
+		for c := 0; c < cycles; c++ {
+			ops := 10 + g.r.intn(40)
+			for j := 0; j < ops; j++ {
+				if g.r.chance(70) {
+					g.put(g.pick(), g.r.bytes(30+g.r.intn(100)))
+				} else {
+					g.del(g.pickLive())
+				}
+			}
+			if i%3 == 0 && c == cycles/2 {
+				// delete everything, then compact: the log may become empty
+				for k := range copyMap(g.ref) {
+					g.del([]byte(k))
+				}
+				g.c.tag("delete_all_then_compact")
+			}
+			g.compact()
+			g.checkDirectory()
+			// the database remains usable: each of these must succeed
+			switch g.r.intn(5) {
+			case 0:
+				g.sync()
+			case 1:
+				g.put(g.pick(), g.value())
+			case 2:
+				g.del(g.pickLive())
+			case 3:
+				g.do(fmt.Sprintf("backup u%d", c), "backup ok")
+			default:
+				g.close()
+				g.open()
+				g.c.Steps[len(g.c.Steps)-1].Expect = []string{"open ok recovered=0"}
+				g.c.tag("clean_restarts")
+			}
+			g.sync()
+			g.dump()
+			total := 0
+			for _, nm := range g.im.FS.List(g.im.Dir) {
+				data, _ := g.im.FS.ReadFile(g.im.Dir + "/" + nm)
+				total += len(data)
+			}
+			sizes = append(sizes, total)
+		}
+		g.checkAll()
+		g.close()
+		g.checkDirectory()
+		if h := g.im.FS.OpenHandles(); h != 0 {
+			g.do(fmt.Sprintf("echo open-handles-after-close-%d", h), "echo ok")
+		}
+		add(g)
+	}
+}
+
+// checkDirectory: every file belongs to a live segment, the index, metadata or the lock, and the
+// number of open handles is what the open segments and the two index files need.
+func (g *G) checkDirectory() {
+	live := map[string]bool{"main.pix": true, "overflow.pix": true, "index.pmt": true, "db.pmt": true, "lock": true}
+	nseg := 0
+	if g.im.DB != nil {
+		for _, s := range pogreb.VerifSegments(g.im.DB) {
+			live[s.Name] = true
+			live[s.Name+".pmt"] = true
+			nseg++
+		}
+	} else {
+		for _, nm := range g.im.FS.List(g.im.Dir) {
+			if strings.HasSuffix(nm, ".psg") {
+				live[nm] = true
+				live[nm+".pmt"] = true
+			}
+		}
+	}
+	for _, nm := range g.im.FS.List(g.im.Dir) {
+		if !live[nm] {
+			g.do("echo stray-file-"+nm, "echo ok")
+		}
+	}
+	if g.im.DB != nil {
+		if h := g.im.FS.OpenHandles(); h != nseg+2 {
+			g.do(fmt.Sprintf("echo open-handles-%d-for-%d-segments", h, nseg), "echo ok")
+		}
+	}
+}
+
+// ---------------------------------------------------------------- C16: size limits
+func genC16(r *rng, tier string, add func(g *G)) {
+	keyLens := []int{0, 1, 2, 255, 256, 65534, 65535}
+	longLens := []int{65536, 65537, 131071}
+	n := scale(tier, 16, 160)
+	for i := 0; i < n; i++ {
+		g := newG(r.fork(), fmt.Sprintf("C16/%d", i))
+		g.dumpEvery = 0
+		maxSeg := []int{1024, 4096, 70000}[g.r.intn(3)]
+		if tier == "thorough" && i%20 == 0 {
+			maxSeg = 1 << 20
+		}
+		g.params(maxSeg, 512, 0.5, false)
+		g.open()
+		mk := func(l int) []byte {
+			b := g.r.bytes(l)
+			return b
+		}
+		// values around 0, the sector size, the remainder of the segment, the whole segment
+		valLens := []int{0, 1, 501, 502, 503, 511, 512, 513, maxSeg - 512 - 12, maxSeg - 512 - 11, maxSeg - 512 - 10, maxSeg - 512 - 9, maxSeg, maxSeg + 1}
+		big := 0
+		for j := 0; j < 10; j++ {
+			kl := keyLens[g.r.intn(len(keyLens))]
+			if kl > 60000 {
+				big++
+				if big > 2 {
+					kl = keyLens[g.r.intn(5)]
+				}
+			}
+			vl := valLens[g.r.intn(len(valLens))]
+			if vl < 0 {
+				vl = 0
+			}
+			k := mk(kl)
+			g.keys = append(g.keys, k)
+			g.put(k, mk(vl))
+			g.get(k)
+			g.has(k)
+		}
+		g.put([]byte{}, []byte{}) // empty key, empty value: distinguishable from a missing key
+		g.get([]byte{})
+		g.dump()
+		g.do("dumprecs")
+		// over-long keys: Put is rejected and changes nothing; Get/Has/Delete behave as for an absent key
+		for li, ll := range longLens {
+			if tier != "thorough" && li != i%3 {
+				continue
+			}
+			long := mk(ll)
+			// a stored key whose length equals the truncated length of the probe
+			short := mk(ll - 65536)
+			g.put(short, []byte("short"))
+			g.keys = append(g.keys, short)
+			g.do("put "+interp.Hex(long)+" 01", "put err keytoolarge")
+			g.do("get "+interp.Hex(long), "get nil")
+			g.do("has "+interp.Hex(long), "has 0")
+			g.do("del "+interp.Hex(long), "del ok")
+			g.get(short)
+			g.c.tag("overlong_key_probes")
+		}
+		g.dump()
+		g.do("dumprecs")
+		g.checkAll()
+		// restart and recovery preserve everything byte-exactly
+		g.close()
+		g.open()
+		g.checkAll()
+		for _, k := range g.keys {
+			g.get(k)
+		}
+		g.do("kill")
+		g.isOpen = false
+		g.open()
+		g.checkAll()
+		for _, k := range g.keys {
+			g.get(k)
+		}
+		g.dump()
+		add(g)
+	}
+}
